@@ -10,9 +10,11 @@ pub mod mpsc {
     #[verifier::reject_recursive_types(T)]
     pub struct UnboundedSender<T> { q: Vec<T> }
 
+    impl<T> UnboundedReceiver<T> {
+        pub uninterp spec fn chan(&self) -> int;
+    }
     impl<T: View> UnboundedReceiver<T> {
         pub uninterp spec fn view(&self) -> Seq<T::V>;
-        pub uninterp spec fn chan(&self) -> int;
         #[verifier::external_body]
         pub fn recv(&mut self) -> (r: Option<T>)
             ensures
